@@ -54,7 +54,7 @@ fn bitvec_case(cx: &mut Ctx, u: &mut Unstructured) -> R {
     let gkind = u.int_in_range(0u8..=2).unwrap_or(0);
     let seed: u64 = u.arbitrary().unwrap_or(99);
     let nops = u.int_in_range(1usize..=14).unwrap_or(4);
-    let ops: Vec<(u8, u16)> = (0..nops).map(|_| (u.int_in_range(0u8..=23).unwrap_or(0), u.arbitrary().unwrap_or(0))).collect();
+    let ops: Vec<(u8, u16)> = (0..nops).map(|_| (u.int_in_range(0u8..=27).unwrap_or(0), u.arbitrary().unwrap_or(0))).collect();
     cx.hash(&("bitvec", len, extra, gkind, seed, &ops));
     cx.describe(|| format!("BitVec over dirty storage: len={len} extra_words={extra} garbage={gkind} seed={seed} ops={ops:?}"));
     cx.label("BitVec");
@@ -81,6 +81,7 @@ fn bitvec_case(cx: &mut Ctx, u: &mut Unstructured) -> R {
     cx.label_if(extra > 0, "extra_words");
     let mut dirty = unsafe { BitVec::from_raw_parts(words_of(&model, &dirt), len) };
     for (k, (op, arg)) in ops.iter().enumerate() {
+        let len = model.len();
         let clean: BitVec = model.iter().copied().collect();
         let ones: Vec<usize> = (0..len).filter(|i| model[*i]).collect();
         match op {
@@ -183,6 +184,29 @@ fn bitvec_case(cx: &mut Ctx, u: &mut Unstructured) -> R {
             15 => {
                 cx.must("par_reset", || dirty.par_reset())?;
                 model.iter_mut().for_each(|m| *m = false);
+            }
+            24..=27 => {
+                cx.label("resize_on_dirty");
+                let before: Vec<usize> = { let w: &[usize] = dirty.as_ref(); w.to_vec() };
+                match op {
+                    24 => {
+                        cx.must("push", || dirty.push(arg % 2 == 0))?;
+                        model.push(arg % 2 == 0);
+                    }
+                    25 => {
+                        let g = cx.must("pop", || dirty.pop())?;
+                        cx.check_eq(g, model.pop(), "read.pop", || "pop() over dirty storage".into())?;
+                    }
+                    _ => {
+                        let n = (*arg as usize * (model.len() + 150)) >> 16;
+                        cx.must("resize", || dirty.resize(n, arg % 2 == 0))?;
+                        model.resize(n, arg % 2 == 0);
+                    }
+                }
+                dirt = before;
+                let need = { let w: &[usize] = dirty.as_ref(); w.len() };
+                cx.check(need >= dirt.len(), "write.bitvec", || "the backend shrank".into())?;
+                dirt.resize(need, 0);
             }
             _ => {
                 // through the atomic twin, over the same storage
@@ -330,7 +354,7 @@ fn bfv_case<W: MaybeAtomic>(cx: &mut Ctx, u: &mut Unstructured) -> R {
     let gkind = u.int_in_range(0u8..=2).unwrap_or(0);
     let seed: u64 = u.arbitrary().unwrap_or(7);
     let nops = u.int_in_range(1usize..=12).unwrap_or(4);
-    let ops: Vec<(u8, u16)> = (0..nops).map(|_| (u.int_in_range(0u8..=17).unwrap_or(0), u.arbitrary().unwrap_or(0))).collect();
+    let ops: Vec<(u8, u16)> = (0..nops).map(|_| (u.int_in_range(0u8..=21).unwrap_or(0), u.arbitrary().unwrap_or(0))).collect();
     cx.hash(&("bfv", W::NAME, width, len, extra, gkind, seed, &ops));
     cx.describe(|| format!("BitFieldVec<{}> over dirty storage: width={width} len={len} extra_words={extra} garbage={gkind} seed={seed} ops={ops:?}", W::NAME));
     cx.label("BitFieldVec");
@@ -358,6 +382,7 @@ fn bfv_case<W: MaybeAtomic>(cx: &mut Ctx, u: &mut Unstructured) -> R {
     cx.label_if(extra > 0, "extra_words");
     let mut dirty = unsafe { BitFieldVec::<W>::from_raw_parts(bfv_words(&model, width, &dirt), width, len) };
     for (op, arg) in &ops {
+        let len = model.len();
         let mut clean = BitFieldVec::<W>::new(width, 0);
         clean.extend(model.iter().map(|v| W::from128(*v)));
         match op {
@@ -456,10 +481,41 @@ fn bfv_case<W: MaybeAtomic>(cx: &mut Ctx, u: &mut Unstructured) -> R {
                     }
                 }
             }
-            _ => {
+            15..=17 => {
                 dirty = W::atomic_ops(cx, dirty, &mut model, width, *op, *arg)?;
             }
+            _ => {
+                // length-changing operations of the growable form: the bits they do
+                // not write (stale bits of removed elements, garbage further on)
+                // stay as they are; appended words are zero
+                cx.label("resize_on_dirty");
+                let before: Vec<W> = dirty.as_slice().to_vec();
+                match op {
+                    18 => {
+                        let val = field_hash(*arg as usize, 9, width);
+                        cx.must("push", || dirty.push(W::from128(val)))?;
+                        model.push(val);
+                    }
+                    19 => {
+                        let g = cx.must("pop", || dirty.pop())?;
+                        let w = model.pop();
+                        cx.check_eq(g.map(|x| x.to128()), w, "read.pop", || "pop() over dirty storage".into())?;
+                    }
+                    _ => {
+                        let n = (*arg as usize * (model.len() + 40)) >> 16;
+                        let val = if arg % 3 == 0 { 0 } else { field_hash(*arg as usize, 13, width) };
+                        cx.must("resize", || dirty.resize(n, W::from128(val)))?;
+                        model.resize(n, val);
+                    }
+                }
+                dirt = before;
+                let need = dirty.as_slice().len();
+                cx.check(need >= dirt.len(), "write.bfv", || "the backend shrank".into())?;
+                dirt.resize(need, W::ZERO);
+            }
         }
+        let len = model.len();
+        let _ = len;
         let want = bfv_words(&model, width, &dirt);
         let got = dirty.as_slice();
         if got != &want[..] {
